@@ -1,7 +1,7 @@
 ---- MODULE MC_Race ----
 \* model-checking / export root for Race.tla: prints the initial state and every explored edge as JSON
 EXTENDS Race, Json
-Proj == [st |-> st, done |-> done, q |-> q, pcs |-> [w \in Workers |-> wk[w].pc], wk |-> wk, gh |-> gh]
+Proj == [st |-> st, done |-> done, q |-> q, claims |-> claims, pcs |-> [w \in Workers |-> wk[w].pc], wk |-> wk, gh |-> gh]
 Edge == PrintT(<<"EDGE", ToJson(Proj), ToJson(Proj')>>)
 InitP == Init /\ PrintT(<<"INIT", ToJson(Proj)>>)
 ====
